@@ -713,6 +713,23 @@ class Interp:
         mgr = self.eval(item.context_expr, env)
         enter = self.find_method(mgr, '__enter__') if isinstance(mgr, Obj) else None
         exit_ = self.find_method(mgr, '__exit__') if isinstance(mgr, Obj) else None
+        if isinstance(mgr, Obj) and enter is None and isinstance(mgr.fields.get('__enter__'), Builtin):
+            # a native model object (file handles of the file-system model)
+            n_enter, n_exit = mgr.fields['__enter__'], mgr.fields['__exit__']
+            v = n_enter.fn()
+            if item.optional_vars is not None:
+                self.assign(item.optional_vars, v, env)
+            try:
+                self.exec_block(st.body, env)
+            except PyRaise as pr:
+                if not self.decide(n_exit.fn(ClassVal(pr.exc.typ, ''), pr.exc, None)):
+                    raise
+            except (_Return, _Break, _Continue):
+                n_exit.fn(None, None, None)
+                raise
+            else:
+                n_exit.fn(None, None, None)
+            return
         if enter is None or exit_ is None:
             raise Unsupported(f'with over {type(mgr).__name__}')
         v = self.call_function(enter, [mgr], {}, st.lineno)
